@@ -528,6 +528,19 @@ def abstract(names, events, n_old_tmps=0):
         o = rel_oid(p) if isinstance(p, str) else None
         if ev == "mkdir" or (ev == "chmod" and o is None and not is_tmp(p)):
             steps.append(("Mkdir", "[]"))
+        elif ev == "link" or (ev == "open" and o is not None and
+                              (next((x for x in body[i + 1:] if x.get("p") == p), None) or {}).get("ev") != "remove"):
+            # os.link(src, final) - or, for an empty source, the creation of an empty file at the final name that
+            # is NOT the reflink attempt (no unlink follows): the complete content appears under the final name
+            # in one system call = [CreateTmp t; WriteTmp t b; Rename t o] of a virtual temp name
+            if o is None:
+                raise Unmodelled(f"link to a non-object path: {e}")
+            t = T("__link__%d" % i)
+            m = e.get("md5", EMPTY_MD5) if ev == "link" else EMPTY_MD5
+            steps += [("CreateTmp", str(t)), ("WriteTmp", str(t), c_l(names.cid(m))),
+                      ("Rename", str(t), c_l(names.oid(o)))]
+            if m != o.split(".")[0]:
+                JUNK.append(o)
         elif ev == "open":
             if o is not None:
                 steps.append(("Probe", c_l(names.oid(o))))
@@ -625,7 +638,7 @@ def gen_tree(rng, big):
     pool = [b"AAA", b"BBB", b"", b"C", b"DDDD-long-content", b"EE"]
     if big:
         pool += [bytes([65 + i]) * (i + 2) for i in range(6, 14)]
-    nfiles = rng.randint(6, 10) if big else rng.randint(3, 4)
+    nfiles = rng.randint(6, 10) if big else rng.randint(2, 3)
     dirs = ["", "d", "d/e", "x"] if big else ["", "d"]
     tree = {}
     for i in range(nfiles):
@@ -761,6 +774,8 @@ def scen_term(names, sc, events, steps, cuts, t0):
                                                      lst(it(o) for o in files), it(d))
         # transfer() always passes its own verify argument (default False) down to add: the store's
         # default never applies on this path
+        if sc.get("hardlink") and kind == "stage_transfer" and not vcall:
+            return "(ScLTransfer %d %s %s %s)" % (t0, qs, lst(it(o) for o in files), it(d))
         return "(ScTransfer %s %s %d %s %s %s)" % (cb(vcall), cb(kind == "stage_transfer"), t0, qs,
                                                    lst(it(o) for o in files), it(d))
     return "ScNone"
@@ -801,9 +816,24 @@ def crash_and_rerun(wd, sc, n, tag):
     return res
 
 
+def ws_verdicts(sc, a, when):
+    """no operation on the store may change a workspace file's content (with hardlink=True the store object and
+    the workspace file are one inode: whatever truncates the object destroys the user's file)"""
+    out = []
+    for rp, b in sorted(sc["tree"].items()):
+        got = a.get("ws", {}).get(rp)
+        if got != md5(b):
+            out.append((f"C15:workspace-file-changed:{when}",
+                        f"workspace file {rp} held {md5(b)} before the operation and holds {got} now"))
+    return out
+
+
 def classify(sc, r):
     """oracle verdicts for one crash point: [(signature, what)]"""
     out = list(judge(r["a1"], "after-crash"))
+    out += ws_verdicts(sc, r["a1"], "after-crash")
+    if r["rc2"] == 0:
+        out += ws_verdicts(sc, r["a2"], "after-rerun")
     if r["rc2"] != 0:
         out.append(("C15:rerun-failed", f"re-running after the crash failed: {r['err2'][-300:]}"))
         return out
@@ -994,9 +1024,10 @@ def scenarios(ctx):
              ("upload", False, False), ("save", True, False), ("add", True, False), ("save", False, True)]
     # (several STAGED trees cannot go through one transfer(): every build() returns its own in-memory
     # reference store, so the multi-directory transfer is exercised store -> store)
-    kinds += [("multi_store", False, False), ("multi_store", False, False), ("bad_src", True, False)]
+    kinds += [("multi_store", False, False), ("bad_src", True, False), ("hardlink", False, False)]
     if big:
-        kinds += [("multi_store", True, False), ("stage_transfer", False, True), ("stage_transfer", True, False), ("store_transfer", True, False), ("upload", True, False),
+        kinds += [("multi_store", False, False), ("multi_store", True, False), ("hardlink", False, False),
+                  ("stage_transfer", False, True), ("stage_transfer", True, False), ("store_transfer", True, False), ("upload", True, False),
                   ("add", False, True), ("add", False, False)]
     reps = ctx.n(1, 3)
     for rep in range(reps):
@@ -1005,6 +1036,10 @@ def scenarios(ctx):
             extra = {}
             if k in ("multi_stage", "multi_store"):
                 tree, extra["roots"] = gen_multi(rng, big and rep > 0)
+            if k == "hardlink":
+                # transfer(..., hardlink=True): workspace -> staging -> store, objects share inodes with the workspace
+                k = "stage_transfer"
+                extra["hardlink"] = True
             if k == "bad_src":
                 # verify=True transfer from a source holding a partial object under a final name
                 k = "store_transfer"
@@ -1044,7 +1079,7 @@ def run(ctx):
         with open(os.environ["C15_DUMP"], "w") as f:
             json.dump({"full": full_items, "rr": rr_items}, f)
     ctx.correspond("trace", IMPORTS, "tcase", model, full_items, shard=1)
-    ctx.correspond("rerun", IMPORTS, "tcase", model, rr_items, shard=25)
+    ctx.correspond("rerun", IMPORTS, "tcase", model, rr_items, shard=50)
     ctx.extra["crash_points"] = ctx.evaluations
     ctx.extra["scenarios"] = [sc["scenario"] for sc in scs]
 
